@@ -9,6 +9,7 @@ substitution renderer for the restricted template grammar, byte comparison of th
 """
 import hashlib
 import io
+import logging
 import os
 import shutil
 import tarfile
@@ -35,7 +36,9 @@ RULE = (
     "names; a car-name list of 1-4 names, car params (str/int/bool/None values), data_paths default or defined in base/car/params (inside the "
     "installation, next to it, outside); a stub elasticsearch-x.y.z.tar.gz with pre-bundled config and other files; content on disk before "
     "provisioning and created afterwards in the installation, in every data path candidate and around them (incl. symlinks to the outside); "
-    "preserve flag. ~8% of cases have no config base at all (documented error). Non-trivial = at least two selected cars define the same "
+    "preserve flag. ~8% of cases have no config base at all (documented error); ~6% of the cars write their base list with a blank next to the "
+    "comma and ~12% of the cases make the effective data path a symbolic link (both are known findings: counted in excluded_known and skipped "
+    "where they would fire). Non-trivial = at least two selected cars define the same "
     "variable name (in the car or its config bases) AND at least two applied config bases provide the same plain-text file. Distinct = "
     "distinct canonical JSON."
 )
@@ -45,7 +48,8 @@ ASSUMPTIONS = [
     "runtime.jdk and runtime.jdk.bundled are always defined with valid values (provisioner.local() reads them before a provisioner exists)",
     "the node root directory contains no pre-existing entry matching install/elasticsearch* (Rally provisions into a fresh race directory)",
     "plain-text template paths never coincide with files the distribution ships outside config/; no path is a file in one base and a directory in another",
-    "data paths are directories (or absent), never ancestors of the installation or of unrelated content, and not symlinks themselves",
+    "data paths are directories (or absent, or - known finding - a symbolic link to a directory), never ancestors of the installation or of unrelated content",
+    "for a symlinked data path the statement does not say what exactly goes: link removed, target removed or target emptied are all accepted",
     "files the distribution ships in config/ and no template provides may or may not survive (the statement is silent; Rally deletes them)",
     "no bootstrap hooks (config.py), no plugins, no Docker provisioner, java_home None",
 ]
@@ -79,6 +83,7 @@ def strategy(tier, known):
 def setup():
     console.init(quiet=True)
     warnings.simplefilter("ignore", DeprecationWarning)  # tarfile.extractall filter notice of Python 3.12
+    logging.getLogger("esrally").addHandler(logging.NullHandler())  # "Could not delete ..." goes to the log, not to stderr
 
 
 # ------------------------------------------------------------------------------------------------ materialisation
@@ -160,7 +165,7 @@ def _materialise_team(case, lay):
         if c["type"] is not None:
             sections.append(("meta", {"description": f"generated {name}", "type": c["type"]}, None))
         if c["bases"]:
-            sections.append(("config", {"base": ",".join(c["bases"])}, None))
+            sections.append(("config", {"base": c.get("sep", ",").join(c["bases"])}, None))
         elif c["base_key"] == "empty":
             sections.append(("config", {"base": ""}, None))
         elif c["base_key"] == "no-key":
@@ -230,6 +235,50 @@ def _model(case, lay):
     variables.update(car_tier)
     variables.update(_params(case, lay) or {})
     return variables, order
+
+
+def _effective_specs(case):
+    """the data_paths definition that wins by precedence, as specs (None = Rally's default); only used to place the symlink / to exclude"""
+    dp = case["data_paths"]
+    if dp["params"] is not None:
+        return [dp["params"]] if isinstance(dp["params"], dict) else list(dp["params"])
+    eff = None
+    for c in case["selection"]:
+        if c in dp["cars"]:
+            eff = dp["cars"][c]
+    if eff is None:
+        for c in case["selection"]:
+            for b in case["cars"][c]["bases"]:
+                if b in dp["bases"]:
+                    eff = dp["bases"][b]
+    return None if eff is None else [eff]
+
+
+def _symlinked_spec(case):
+    """the data path that is a symbolic link in this case (or None)"""
+    if not case["disk"].get("data_symlink"):
+        return None
+    for spec in _effective_specs(case) or []:
+        if spec["loc"] != "home" and not spec["slash"]:
+            return spec
+    return None
+
+
+def _blank_separator(case):
+    return any(len(case["cars"][c]["bases"]) >= 2 and case["cars"][c].get("sep", ",") != "," for c in case["selection"])
+
+
+SIG_BLANK = "car/base-name-not-trimmed"
+SIG_SYMLINK = "cleanup/symlinked-data-path-kept"
+
+
+def is_excluded(case, known):
+    if SIG_BLANK in known and _blank_separator(case):
+        return True
+    if SIG_SYMLINK in known and not case["preserve"] and _symlinked_spec(case) is not None:
+        # only reached when load_car succeeds, but that cannot be told without running it: cases without any config base are skipped too
+        return True
+    return False
 
 
 def _definers(case):
@@ -351,6 +400,16 @@ def _run(case, obs, lay):
     if not base_order:
         obs.violation("car/no-base-accepted", f"no selected car references a config base but load_car returned config paths {car.config_paths}")
         return
+    if _blank_separator(case):
+        obs.cls("blank-next-to-comma-in-base-list")
+        if list(car.config_paths) != want_paths or dict(car.variables) != want_vars:
+            obs.violation(
+                SIG_BLANK,
+                f"[config] base = {[case['cars'][c].get('sep', ',').join(case['cars'][c]['bases']) for c in case['selection']]}: config paths "
+                f"{[p[len(lay.cars_dir) + 1:] for p in car.config_paths]} (existing: {[os.path.isdir(p) for p in car.config_paths]}), expected bases {base_order}; "
+                + _diff_vars(dict(car.variables), want_vars, case),
+            )
+            return
     obs.check(
         list(car.config_paths) == want_paths,
         "car/config-paths",
@@ -470,6 +529,17 @@ def _run(case, obs, lay):
     candidates = sorted(set(candidates), key=candidates.index)
     effective = [os.path.normpath(p) for p in want_data]
     d = case["disk"]
+    link_spec = _symlinked_spec(case)
+    link = link_target = None
+    if link_spec is not None:
+        link = os.path.normpath(lay.data_path(link_spec))
+        link_target = os.path.join(lay.root, "mnt", "vol0", "es")
+        os.makedirs(link_target)
+        _w(os.path.join(lay.root, "mnt", "vol0", "other", "keep.txt"), b"keep")
+        os.makedirs(os.path.dirname(link), exist_ok=True)
+        os.symlink(link_target, link)
+        _w(os.path.join(link, "nodes", "0", "_state", "global-1.st"), b"cluster state of the previous race")
+        obs.cls("data-path-is-symlink")
     for i, c in enumerate(candidates):
         if i in d["missing_data_dirs"]:
             continue
@@ -512,6 +582,17 @@ def _run(case, obs, lay):
     else:
         obs.cls("cleanup:wipe")
         want_after = {p: v for p, v in before.items() if not any(_is_under(p, r) for r in removed_roots)}
+        if link is not None:
+            # the statement does not say whether the link, its target directory or only the content goes: all accepted, but the data must go
+            survivors = sorted(_files_under(link)) if os.path.isdir(link) else []
+            obs.check(
+                not survivors,
+                SIG_SYMLINK,
+                f"data path {os.path.relpath(link, lay.root)} is a symbolic link to {os.path.relpath(link_target, lay.root)}; after cleanup it still holds {survivors[:4]}",
+            )
+            tolerated = [os.path.relpath(link, lay.root), os.path.relpath(link_target, lay.root)]
+            want_after = {p: v for p, v in want_after.items() if not any(_is_under(p, t) for t in tolerated)}
+            after = {p: v for p, v in after.items() if not any(_is_under(p, t) for t in tolerated)}
         left = sorted(p for p in after if p not in want_after)
         gone = sorted(p for p in want_after if p not in after)
         changed = sorted(p for p in want_after if p in after and after[p] != want_after[p])
@@ -544,3 +625,61 @@ def _diff_snap(a, b):
     new = sorted(p for p in b if p not in a)
     changed = sorted(p for p in a if p in b and a[p] != b[p])
     return f"gone {gone[:6]} new {new[:6]} changed {changed[:6]}"
+
+
+# ------------------------------------------------------------------------------------------------ probes for findings
+def _probe(**changes):
+    case = {
+        "archive": {"version": "7.10.2", "config": {"config/elasticsearch.yml": "6f6c64"}, "other": {"bin/elasticsearch": ""}},
+        "bases": {
+            "vanilla": {
+                "files": {"config/jvm.options": {"kind": "text", "parts": [["t", "-Xmx"], ["v", "heap_size", 0]], "end": "\n"}},
+                "style": 0,
+                "vars": {"heap_size": "1g", "runtime.jdk": "21", "runtime.jdk.bundled": "true"},
+            },
+            "ea": {
+                "files": {"config/jvm.options": {"kind": "text", "parts": [["t", "-ea"]], "end": "\n"}},
+                "style": 0,
+                "vars": {"assertions": "true"},
+            },
+        },
+        "cars": {
+            "defaults": {"type": "car", "bases": ["vanilla"], "base_key": "present", "sep": ",", "style": 0, "vars": {}, "vars_section": True},
+        },
+        "selection": ["defaults"],
+        "params": None,
+        "data_paths": {"bases": {}, "cars": {}, "params": None},
+        "node": {
+            "node_name": "rally-node-0",
+            "cluster_name": "rally-benchmark",
+            "ip": "127.0.0.1",
+            "http_port": 39200,
+            "all_node_ips": ["127.0.0.1"],
+            "all_node_names": ["rally-node-0"],
+        },
+        "disk": {
+            "before": [],
+            "data_files": 1,
+            "missing_data_dirs": [],
+            "home_files": [],
+            "symlink_in_data": False,
+            "symlink_in_home": False,
+            "data_symlink": False,
+        },
+        "preserve": False,
+    }
+    for path, value in changes.items():
+        target = case
+        keys = path.split("__")
+        for k in keys[:-1]:
+            target = target[k]
+        target[keys[-1]] = value
+    return case
+
+
+PROBES = {
+    # defaults.ini:  [config] base = vanilla, ea   ->  " ea" is looked up, does not exist, and is silently skipped
+    SIG_BLANK: _probe(cars__defaults__bases=["vanilla", "ea"], cars__defaults__sep=", "),
+    # --car-params="data_paths:'<root>/disks/d0'" where d0 is a symbolic link to a directory on another volume
+    SIG_SYMLINK: _probe(data_paths__params={"loc": "out", "rel": "d0", "slash": False}, disk__data_symlink=True),
+}
